@@ -45,6 +45,10 @@ class Runner:
             self._heights = jax.jit(lambda ph, sw: jax.vmap(lambda p: gait.desired_foot_height(p, sw))(ph))
             return
         self.env = make_env(cls)
+        from lerax.wrapper import TimeLimit
+
+        # episodes must END inside the simulated horizon so that automatic resets (reset events) occur
+        self.wrapped = TimeLimit(self.env, cls.get("time_limit", 6))
         self.K = cls.get("K", 8)
         self.L = cls.get("L", 20)
         self._initials = eqx.filter_jit(lambda env, keys: jax.vmap(lambda k: env.initial(key=k))(keys))
@@ -66,12 +70,13 @@ class Runner:
 
     def _rollout(self, env, key, hold):
         k0, k1 = jr.split(key)
-        state, _, _ = env.reset(key=k0)
+        wstate, _, _ = env.reset(key=k0)
 
-        def body(state, k):
+        def body(wstate, k):
             ka, ks = jr.split(k)
             a = jnp.where(hold, jnp.full(env.action_space.shape, 1.0) * env.action_space.high, env.action_space.sample(key=ka))
-            new_state, obs, r, term, trunc, _ = env.step(state, a, key=ks)
+            new_wstate, obs, r, term, trunc, _ = env.step(wstate, a, key=ks)
+            state, new_state = wstate.unwrapped, new_wstate.unwrapped
             done = term | trunc
             out = {
                 "phase_prev": state.gait_phase, "phase": new_state.gait_phase, "freq_prev": state.gait_frequency, "freq": new_state.gait_frequency,
@@ -80,9 +85,9 @@ class Runner:
                 "dof_armature": new_state.model.dof_armature, "body_mass": new_state.model.body_mass,
                 "foot_h": gait.desired_foot_height(new_state.gait_phase, 0.15),
             }
-            return new_state, out
+            return new_wstate, out
 
-        _, outs = lax.scan(body, state, jr.split(k1, self.L))
+        _, outs = lax.scan(body, wstate, jr.split(k1, self.L))
         return outs
 
     # ------------------------------------------------------------------ plans
@@ -246,7 +251,9 @@ class Runner:
                         res.ok("C20", "command_in_range")
                         res.ok("C20", "frequency_in_range")
                     # derived kinematics consistent with the joint configuration
-                    for fld, tol in (("xpos", 1e-4), ("xquat", 1e-4), ("site_xpos", 1e-4), ("sensordata", 1e-3)):
+                    # kinematic quantities only: force / acceleration sensors depend on the state of MJX's iterative
+                    # constraint solver (not idempotent under deep ground contact) and are not "derived kinematics"
+                    for fld, tol in (("xpos", 1e-4), ("xquat", 1e-4), ("xmat", 1e-4), ("xipos", 1e-4), ("site_xpos", 1e-4), ("site_xmat", 1e-4)):
                         a, b = np.asarray(getattr(st.sim_state, fld))[i], np.asarray(getattr(fwd, fld))[i]
                         if not np.allclose(a, b, rtol=1e-4, atol=tol):
                             res.fail("C20", "kinematics_consistent", f"stored_{fld}_differs_from_forward_kinematics", key_index=i, max_abs=float(np.max(np.abs(a - b))))
@@ -260,7 +267,7 @@ class Runner:
                     res.fail("C20", "friction_in_range", "friction_not_randomised_across_keys", K=self.K)
                 res.steps += self.K
             else:
-                outs = jax.device_get(self._roll(env, jr.key(op["key"]), jnp.asarray(bool(op["hold"]))))
+                outs = jax.device_get(self._roll(self.wrapped, jr.key(op["key"]), jnp.asarray(bool(op["hold"]))))
                 L = self.L
                 dt = float(np.asarray(env.dt))
                 res.steps += L
